@@ -103,6 +103,14 @@ def id_star(graph: NxMixedGraph, event: Event, *, _number_recursions: int = 0) -
     ancestors_not_in_event = {node.get_base() for node in cf_subgraph.nodes()} - {
         variable.get_base() for variable in new_event
     }
+    # a summed out ancestor takes every value, so it conflicts with a subscript on the same variable
+    summed_conflicts = [
+        (intervention, intervention)
+        for intervention in get_cf_interventions(cf_subgraph.nodes())
+        if intervention.get_base() in ancestors_not_in_event
+    ]
+    if summed_conflicts:
+        raise ConflictUnidentifiable(cf_subgraph, new_event, summed_conflicts)
     return Sum.safe(id_star_line_9(cf_subgraph), ancestors_not_in_event, simplify=True)
 
 
